@@ -41,7 +41,7 @@ def with_declared_types(case):
         if f not in have:
             vals = sorted(Fr(d) for d in dom)
             if len(vals) >= 2 and all(v.denominator == 1 for v in vals) and vals == [vals[0] + i for i in range(len(vals))] \
-                    and (len(f) + len(vals)) % 2 == 0:
+                    and (ord(f[0]) + len(vals)) % 3 != 0:
                 # the other documented way to declare a finite type
                 types.append((f, f"FiniteRange({vals[0]}, {vals[-1]})"))
             else:
